@@ -35,12 +35,21 @@ BASE_OPTS = ["--memtable-size-bytes", "100000000", "--l0-write-stall-threshold-f
              "--l0-write-stall-threshold-bytes", "100000000000"]
 
 
-def gen_history(rng, n_ops, universe):
-    """list of ops: ('w', batch) ('flush',) ('compact', n) ('reopen',) ('reads',)"""
+def gen_history(rng, n_ops, universe, deferred=False, reopens=True):
+    """list of ops: ('w', batch) ('flush',) ('compact', n) ('reopen',) ('reads',); with deferred=True
+    also ('select',) and ('perform', j): compactions are selected, stay in the ongoing list while
+    writes, flushes, other selections and performs go on, and are performed later in any order - the
+    interleavings several compaction threads produce, single-stepped"""
     ops = []
     hot = [rng.choice(universe) for _ in range(4)]
     for _ in range(n_ops):
         r = rng.below(100)
+        if deferred and rng.chance(1, 4):
+            if rng.chance(1, 2):
+                ops.append(("select",))
+            else:
+                ops.append(("perform", rng.below(4)))
+            continue
         if r < 52:
             k = rng.choice(hot) if rng.chance(1, 2) else rng.choice(universe)
             if rng.chance(1, 4):
@@ -55,19 +64,22 @@ def gen_history(rng, n_ops, universe):
             ops.append(("flush",))
         elif r < 92:
             ops.append(("compact", rng.choice([1, 2, 3, 8, 20, 40])))
-        elif r < 96:
+        elif r < 96 and reopens:
             ops.append(("reopen",))
         else:
             ops.append(("reads",))
     return ops
 
 
-def gen_tree_history(rng, n_ops, universe):
+def gen_tree_history(rng, n_ops, universe, deferred=False):
     """tree-level histories: external ingests (several versions of a key in one file, tombstones,
     strictly increasing timestamps across files), compaction steps, reopens, reads"""
     ops, ts = [], 0
     for _ in range(n_ops):
         r = rng.below(100)
+        if deferred and rng.chance(1, 3):
+            ops.append(("select",) if rng.chance(1, 2) else ("perform", rng.below(4)))
+            continue
         if r < 45:
             ents, used = [], set()
             for _ in range(rng.range(1, 6)):
@@ -111,10 +123,20 @@ def run_history(lsm_exe, mx_exe, opts, ops, tag, universe=None):
                     if not run.compact():
                         break
                     run.reads()
+            elif op[0] == "select":
+                run.select()
+            elif op[0] == "perform":
+                if run.pending:
+                    keys = sorted(run.pending)
+                    if run.perform(keys[op[1] % len(keys)]):
+                        run.reads()
             elif op[0] == "reopen":
                 run.reopen()
                 run.reads()
             elif op[0] == "reads":
+                run.reads()
+        while run.pending and not run.dead:      # what is still selected at the end is performed, oldest first
+            if run.perform(sorted(run.pending)[0]):
                 run.reads()
         if not run.dead:
             run.reads()
@@ -226,14 +248,15 @@ def run(chk):
     for i in range(n_hist):
         optname, opts = OPTION_SETS[i % len(OPTION_SETS)]
         universe = lsmlib.UNIVERSE[:rng.choice([6, 10, 18])]
-        ops = gen_history(rng.fork(), rng.choice([80, 160, 320]), universe)
+        ops = gen_history(rng.fork(), rng.choice([80, 160, 320]), universe, deferred=(i % 3 == 2),
+                          reopens=(i % 4 != 1))     # a quarter of the histories never reopen: nothing in them can be attributed to K2
         jobs.append((lsm_exe, mx, opts, ops, "c01h%d" % i, universe))
         names.append(("h%d" % i, optname, ops))
     # tree-level histories: data arrives through LsmTree::ingest of external ssts
     for i in range(n_hist // 4):
         optname, opts = OPTION_SETS[i % len(OPTION_SETS)]
         universe = lsmlib.UNIVERSE[:rng.choice([4, 8, 14])]
-        ops = gen_tree_history(rng.fork(), rng.choice([40, 80, 160]), universe)
+        ops = gen_tree_history(rng.fork(), rng.choice([40, 80, 160]), universe, deferred=(i % 2 == 1))
         jobs.append((lsm_exe, mx, opts, ops, "c01t%d" % i, universe))
         names.append(("t%d" % i, optname, ops))
     results = [(n[0], n[1], n[2], r) for n, r in zip(names, run_many(jobs))]
